@@ -432,4 +432,6 @@ def run_case(case):
 def run_task(task):
     return batch.run_batched(task["cases"], _judge,
                              label=lambda c: "ok:handop" if "handop" in c else "ok:hand" if "hand" in c else "ok:star" if "star" in c else ("ok:reeval" if "reeval" in c else "ok:defaults" if "dflt" in c else "ok:%s:%s" % (c["c"], c["o"][0])),
-                             key=lambda c: repr(sorted(c.items())), strict_batch=True)
+                             key=lambda c: repr(sorted(c.items())),
+                             # (re-evaluation sites are judged by a batch-wide "a test raised": only the local-class sites are strict)
+                             strict_batch=lambda c: bool(c.get("local")))
